@@ -86,6 +86,10 @@ def run_demo(src: Path, pid: str):
             return "NO-COMMANDS", text[:200]
         (work / "run.sh").write_text(pre + f"{exes[-1] if exes[-1].startswith('/') or exes[-1].startswith('$') else './' + exes[-1]}\n")
         r = sh(f"cd {src} && bash {work}/run.sh", timeout=3600)
+        if "usage:" in (r.stdout + r.stderr).lower() and "eph" in (r.stdout + r.stderr):
+            # the demonstration drives the built CLI binary: pass it
+            (work / "run.sh").write_text((work / "run.sh").read_text().rstrip("\n") + f" {WT}/_build/eph\n")
+            r = sh(f"cd {src} && bash {work}/run.sh", timeout=3600)
         out_all += r.stdout + r.stderr
         rc = r.returncode
     tail = out_all[-600:]
